@@ -84,3 +84,6 @@ def run(repo, res, tier):
     # text after a comment delimiter of another kind inside a comment must not be swallowed (or released) silently
     from .. import lexsim
     lexsim.rule_comment_kind(repo, res)
+    # the token in front of which an empty value is supplied: reserved keywords and statement delimiters only
+    from .. import langrules as _lr5
+    _lr5.rule_hook_lang(repo, res, _lr5.analyse(repo))
